@@ -891,6 +891,9 @@ func (e *ev) binary(x *E) Val {
 		case KArr, KHash:
 			for _, el := range r.A {
 				if el.K != l.K {
+					if (l.K == KStr && el.K == KNum && plainWord(l.S)) || (l.K == KNum && el.K == KStr && plainWord(el.S)) {
+						continue // a non-numeric word never equals a number
+					}
 					leave("in: element kind differs from needle kind")
 				}
 				if LooseEq(el, l) {
@@ -1043,6 +1046,13 @@ func (e *ev) applyFilter(name string, args []Val) Val {
 		ret = Str(strings.ToUpper(OwnStr(args[0])))
 	case "fid":
 		ret = args[0]
+	case "lidx":
+		ret = Str(OwnStr(args[0]) + "@-")
+		if l, ok := e.get("loop"); ok && l.K == KHash {
+			if idx, ok := l.HashGet("index"); ok {
+				ret = Str(OwnStr(args[0]) + "@" + OwnStr(idx))
+			}
+		}
 	case "frepr":
 		ret = Str(Repr(args[0]))
 	default:
@@ -1079,4 +1089,23 @@ func (e *ev) applyTest(name string, subj Val, args []Val) bool {
 	}
 	e.call("?"+name, append([]Val{subj}, args...))
 	return ret
+}
+
+// plainWord reports whether s consists of ASCII letters only and is not a
+// spelling of a number in any language involved ("NaN", "Inf", "Infinity").
+func plainWord(s string) bool {
+	if s == "" {
+		return false
+	}
+	for i := 0; i < len(s); i++ {
+		c := s[i]
+		if !(c >= 'a' && c <= 'z' || c >= 'A' && c <= 'Z') {
+			return false
+		}
+	}
+	switch strings.ToLower(s) {
+	case "nan", "inf", "infinity", "e":
+		return false
+	}
+	return true
 }
